@@ -39,8 +39,14 @@ Definition ok_disp (c : dcase) : bool :=
 
 Definition sig_of_case (c : dcase) : sig :=
   let '(d, _, _, _) := c in match dc_methods d with m :: _ => md_sig m | [] => [] end.
-(* known finding F5: the signature has a variadic or positional-only parameter *)
-Definition known_class (c : dcase) : nat := if simple_sig (sig_of_case c) then 0 else 1.
+(* known finding F5: the signature the CLIENT addresses (a context parameter passed positionally is not part of it) has a
+   variadic or positional-only parameter *)
+Definition client_sig (c : dcase) : sig :=
+  let '(d, _, _, _) := c in
+  match dc_methods d with
+  | m :: _ => match md_ctx m with CtxPositional n => sig_exclude n (md_sig m) | _ => md_sig m end
+  | [] => [] end.
+Definition known_class (c : dcase) : nat := if simple_sig (client_sig c) then 0 else 1.
 
 Definition check (c : case) : nat :=
   match c with
